@@ -167,10 +167,10 @@ def rename(structure, rng, force_pack=False):
     return s2, (lambda k: inv[k])
 
 
-def via_file(structure, fmt):
+def via_file(structure, fmt, null_icode="?"):
     from rnapolis.parser import read_3d_structure
     recs = emit.from_structure(structure)
-    text = emit.to_pdb(recs) if fmt == "pdb" else emit.to_cif(recs)
+    text = emit.to_pdb(recs) if fmt == "pdb" else emit.to_cif(recs, null_icode=null_icode)
     with tempfile.NamedTemporaryFile("w", suffix="." + fmt, delete=False) as f:
         f.write(text)
         p = f.name
@@ -213,7 +213,7 @@ def bounded(tier, seed):
                 # the same (moved, 3-decimal) atoms through both file formats
                 ev += 1
                 try:
-                    a, b = summary(via_file(moved, "pdb")), summary(via_file(moved, "cif"))
+                    a, b = summary(via_file(moved, "pdb")), summary(via_file(moved, "cif", null_icode="?."[k % 2]))  # both legal null markers
                     report(tag, f"pdb-vs-cif{k}", diff(a, b))
                     if k == 0:
                         report(tag, "file-vs-memory", diff(summary(via_file(s, "cif")), summary(G.rebuild(s, atom_fn=lambda a_: (round(a_.x, 3), round(a_.y, 3), round(a_.z, 3))))))
